@@ -499,7 +499,7 @@ namespace BitSerializer::MsgPack::Detail
 				return true;
 			}
 
-			HandleMismatchedTypesPolicy(mInputData, mPos, ReadValueType(), mSerializationOptions.mismatchedTypesPolicy);
+			HandleMismatchedTypesPolicy(mInputData, mPos, ByteCodeTable[static_cast<uint8_t>(ch)].Type, mSerializationOptions.mismatchedTypesPolicy);
 			return false;
 		}
 		throw ParsingException("No more values to read", 0, mPos);
